@@ -13,5 +13,14 @@ Dump == \/ ~(Len(runs) = MaxRuns /\ phase = "idle")
                              runs |-> runs]) \o "\n",
                      IOEnv.OUT, [format |-> "TXT", charset |-> "UTF-8", openOptions |-> <<"WRITE", "CREATE", "APPEND">>]).exitValue = 0
 BoundDump == Bound /\ Dump
-NextB == Len(runs) < MaxRuns /\ Next /\ Len(cur') <= MaxItems
+NextB == Len(runs) < MaxRuns /\ Next /\ Len(cur') <= MaxItems /\ Len(runs') <= MaxRuns
+
+\* focused instance: histories in which macros, direct uses and lazily compiled text of two families meet
+FocusFam == {"coc", "fate"}
+InitF == Init /\ ~cfg.noStmts /\ ~cfg.noNDice /\ ~cfg.noBit /\ ~cfg.fam["wod"] /\ ~cfg.fam["doublecross"]
+NextF == /\ Len(runs) < MaxRuns
+         /\ \/ Begin \/ End
+            \/ \E f \in FocusFam : Macro(f, TRUE)
+            \/ \E f \in FocusFam : \E i \in 1..Len(Forms[f]) : Use(f, i) \/ Lazy(f, i) \/ RunExpr(f, i)
+         /\ Len(cur') <= MaxItems /\ Len(runs') <= MaxRuns
 =============================================================================
